@@ -21,6 +21,11 @@ def _late(dt, from_string, to_string):
     return dt
 
 
+def _with_default(dt, v):
+    dt.default_value = v
+    return dt
+
+
 def type_table(E):
     """name -> (factory for the EDataType, kind of type default, sample values, literal)"""
     def user(name, icn):
@@ -49,6 +54,12 @@ def type_table(E):
         'PointListLate': (lambda: _late(E.EDataType('PointListLate', eType=list),
                                         lambda s: [int(x) for x in s.split(',')], lambda v: ','.join(str(x) for x in v)),
                           ('val', None), [], ('4,2', [4, 2])),
+        # a factory type that was ALSO given a default value (constructor keyword / setter): whatever a never-set
+        # attribute starts out with (read from a probe instance before anything is mutated), it is private
+        'FactoryMapWithDefault': (lambda: E.EDataType('Props', dict, type_as_factory=True, default_value={'lang': 'en'}),
+                                  ('factory', dict), [], None),
+        'FactoryListWithDefault': (lambda: _with_default(E.EDataType('Codes', list, type_as_factory=True), ['x']),
+                                   ('factory', list), [], None),
         'CodeLate': (lambda: _late(E.EDataType('CodeLate', instanceClassName='java.lang.Integer'), int, str),
                      ('val', None), [6], ('5', 5)),
     }
@@ -161,6 +172,10 @@ def run_case(cj, model, out, stats):
     from pyecore import ecore as E
     from pyecore.resources import ResourceSet, URI
     A, feats, info, pkg = build(E, cj)
+    for a, ad in enumerate(cj['attrs']):
+        if ad['type'] in ('FactoryMapWithDefault', 'FactoryListWithDefault') and info[a]['default'][0] == 'factory':
+            pv = getattr(A(), feats[a].name)
+            info[a]['default'] = ('factory', info[a]['default'][1], list(pv.values()) if isinstance(pv, dict) else list(pv))
     objs = [A() for _ in range(cj['nobj'])]
     intern = Interner()
     na = len(feats)
@@ -375,7 +390,38 @@ def run(ctx, out):
                         'eIsSet after `del` is not part of the property (pyecore reports True)']
 
 
+def many_valued_part(ctx, out):
+    """part M: multi-valued attributes (unique and list collections over EInt / EString / an enumeration) next to
+    single-valued ones, on the kernel model: values AND eIsSet flags of every (object, feature) after every call
+    (append/insert/remove/pop/clear/extend/update/+=/whole assignment - the empty ones included -, del, reads) are
+    compared with Model/Kernel.v, whose behaviour Props/C15.v states (C15_many_valued_*)."""
+    from harness import kprop
+    main_cov = dict(out.coverage)
+    out.coverage.clear()
+    kprop.run(ctx, out, PID, [], {'outcome', 'values', 'isset'}, 400, 8000,
+              pool=['ains', 'ainl', 'asl', 'aes', 'ai', 'as', 'ae'], weights={'delete': 0.0, 'res': 0.0}, p_wrong=0.05, nres=0)
+    part = dict(out.coverage)
+    out.coverage.clear()
+    out.coverage.update(main_cov)
+    out.coverage['multi_valued_kernel_part'] = part
+
+
+_run_single = run
+
+
+def run(ctx, out):   # noqa: F811
+    _run_single(ctx, out)
+    many_valued_part(ctx, out)
+
+
 def replay(ctx, rep):
+    if 'templates' in rep.get('case', {}) or 'mm' in rep.get('case', {}):
+        from harness import krun
+        r = krun.Run(rep['case'], []).run()
+        for s in r.steps:
+            print(s['op'], '->', s['outcome'])
+        print('kernel case re-run on the implementation; compare with the model through ./check C15')
+        return 0
     common.use_repo()
     o = common.Outcome(PID, 'quick', 0)
     m = common.Model()
